@@ -1361,16 +1361,16 @@ def _inline_custom_loop(ck, L, specs, dist, calls, only, reqs, metas, conv=None)
             reqs.append({"kind": "adapt", "imports": info["foreign_imports"], "domains": info["foreign_domains"],
                          "target": info["imports"][""]})
             metas.append(("adapt", spec, real))
-            for pre, res in conv[:2]:
-                # tie H of `CustomInline.initializersToConstants`: the same object after spox rewrote it in place
-                post = {"nodes": [("Constant:" + n.output[0]) if (n.op_type == "Constant" and not n.domain and n.output
-                                                                  and n.output[0] in pre["initializers"]
-                                                                  and f"::Constant:{n.output[0]}" not in pre["nodes"])
-                                  else f"{n.domain}::{n.op_type}:{','.join(n.output)}" for n in res.graph.node],
-                        "initializers": [t.name for t in res.graph.initializer]}
-                reqs.append({"kind": "initconst", **pre})
-                metas.append(("initconst", spec, post))
-                dist["converted_with_initializers"] = dist.get("converted_with_initializers", 0) + int(bool(pre["initializers"]))
+        for pre, res in (conv[:2] if reqs is not None else []):
+            # tie H of `CustomInline.initializersToConstants`: the same object after spox rewrote it in place
+            post = {"nodes": [("Constant:" + n.output[0]) if (n.op_type == "Constant" and not n.domain and n.output
+                                                              and n.output[0] in pre["initializers"]
+                                                              and f"::Constant:{n.output[0]}" not in pre["nodes"])
+                              else f"{n.domain}::{n.op_type}:{','.join(n.output)}" for n in res.graph.node],
+                    "initializers": [t.name for t in res.graph.initializer]}
+            reqs.append({"kind": "initconst", **pre})
+            metas.append(("initconst", spec, post))
+            dist["converted_with_initializers"] = dist.get("converted_with_initializers", 0) + int(bool(pre["initializers"]))
         ck.count(("inline-custom", repr(spec)))
         dist[spec["variant"]] = dist.get(spec["variant"], 0) + 1
         for c in spec["chain"]:
